@@ -99,6 +99,7 @@ func lower(s string) string { return string(bytes.ToLower([]byte(s))) }
 // Benign malformed statements (C07): they cannot extend the preceding statement nor
 // start a valid one, and end in ';' so that the parser can resynchronise.
 var Benign = [][]string{
+	{"}", ";"}, // (only used at top level: inside a block it would close the block)
 	{")", ";"}, {"]", ";"}, {"=", "1", ";"}, {"=>", ";"}, {"*", ";"}, {"$x", "=", ";"}, {"foo", "(", ";"}, {"$y", "->", ";"}, {"1", "+", ";"}, {",", ";"}, {"$z", "[", ";"}, {"?", ";"}, {":", ";"}, {"=", ";"}, {")", ")", ";"}, {"%", "3", ";"},
 }
 
